@@ -41,7 +41,7 @@ TRUSTED += [
     "strlen/strcmp/strcpy/strrchr/memcpy/memmove/malloc/calloc/free",
 ]
 ASSUMPTIONS += [
-    "w11_rec: stack of <= 2 frames + 1 pending, frame and entry names <= 2 bytes (full alphabet minus NUL and '/'), at most 2 "
+    "w11_rec: stack of <= 2 frames + 1 pending, frame and entry names <= 2 bytes (full alphabet minus NUL and '/'), at most 1 "
     "'.'/'..' entries skipped per call; induction over calls is by the state triple (state, top, next_top) the postconditions re-establish",
 ]
 _REC_FP = {"next:next": "stub_next", "next:open_subdir": "stub_open_subdir", "destroy": "stub_destroy"}
@@ -49,12 +49,13 @@ _REC_FP = {"next:next": "stub_next", "next:open_subdir": "stub_open_subdir", "de
 
 def _rec(d, h):
     frames = d + 1
+    # next.0 (the for(;;) of next): one pass per read of a wrapped iterator; everything else walks strings <= MAXPATH
     return dict(id="d%d_p%d" % (d, h), defines={"DEPTH": d, "HAS_NEXT": h},
-                unwind=max(frames + 3, frames * 3 + 3) + 2)
+                unwind=frames * 3 + 3 + 2, unwindset=["next.0:%d" % (d + h + 1 + 1 + 1)])
 
 
 HARNESSES += [
-    dict(name="w11_rec_next", file="w11_rec.c", label="bounded(stack<=3,name<=2,dots<=2)",
+    dict(name="w11_rec_next", file="w11_rec.c", label="bounded(stack<=3,name<=2,dots<=1)",
          include_dirs=["lib/sqfs/src/io"], defines={"MODE": 0}, fp=_REC_FP,
          flags=["--memory-leak-check"], timeout=900,
          cases=[dict(_rec(d, h), tier="quick" if (d, h) in ((0, 1), (1, 0), (1, 1)) else "thorough")
